@@ -148,6 +148,8 @@ class sptensor:
             shape = parse_shape(np.max(subs, axis=0) + 1)
         else:
             shape = parse_shape(shape)
+            if not tt_sizecheck(shape):
+                raise ValueError(f"Invalid shape provided: {shape}")
 
         if subs.size > 0:
             if vals.shape[0] != subs.shape[0] or vals.size != subs.shape[0]:
